@@ -18,6 +18,7 @@ import (
 	"strings"
 	"sync"
 	"syscall"
+	"time"
 
 	"github.com/bitcoin-sv/block-headers-service/config"
 	"github.com/bitcoin-sv/block-headers-service/internal/wire"
@@ -138,13 +139,9 @@ func (c *rtCtx) flush() {
 func msgDump(m wire.Message) string { return trunc(fmt.Sprintf("%T %+v", m, m), 1500) }
 
 // evalRT: one (message, pver, encoding, network) evaluation of gate, law 1 and law 2.
-func (c *rtCtx) evalRT(k *kind, m wire.Message, sz int, pver uint32, enc wire.MessageEncoding, net wire.BitcoinNet, id string) {
+func (c *rtCtx) evalRT(k *kind, m wire.Message, sz int, pver uint32, enc wire.MessageEncoding, encName string, net wire.BitcoinNet, id string) {
 	r, t := c.r, c.t
 	pc := t.pverClass(pver)
-	encName := "base"
-	if enc != wire.BaseEncoding {
-		encName = "latest"
-	}
 	detail := func(extra map[string]any) map[string]any {
 		d := map[string]any{"kind": k.cmd, "pver": pver, "encoding": uint32(enc), "net": uint32(net), "size_class": szNames[sz], "message": msgDump(m)}
 		for a, b := range extra {
@@ -253,8 +250,8 @@ func (c *rtCtx) rtBatch(k *kind, rng *rand.Rand, id string, n int) {
 			p1 = wire.ProtocolVersion
 			p2 = t.pvers[rng.Intn(len(t.pvers))]
 		}
-		c.evalRT(k, m, sz, p1, wire.BaseEncoding, net, sub)
-		c.evalRT(k, m, sz, p2, wire.LatestEncoding, net, sub)
+		c.evalRT(k, m, sz, p1, wire.BaseEncoding, "BaseEncoding", net, sub)
+		c.evalRT(k, m, sz, p2, wire.LatestEncoding, "LatestEncoding", net, sub)
 	}
 }
 
@@ -265,7 +262,7 @@ func roundTrips(r *ev.Run, t *tables) {
 	for _, k := range t.listed {
 		for b := 0; b < batches; b++ {
 			id := fmt.Sprintf("rt/%s/%d", k.cmd, b)
-			r.Do(id, func() { c.rtBatch(k, r.Rand(id), id, per) })
+			r.Do(id, func() { defer timing(id)(); c.rtBatch(k, r.Rand(id), id, per) })
 		}
 	}
 	c.flush()
@@ -295,7 +292,7 @@ func concurrentRoundTrips(r *ev.Run, t *tables) {
 					for i := 0; i < per; i++ {
 						k := t.listed[rng.Intn(len(t.listed))]
 						m := genMsg(rng, k.cmd, szSmall)
-						c.evalRT(k, m, szSmall, t.pickPver(rng), wire.BaseEncoding, wire.MainNet, gid)
+						c.evalRT(k, m, szSmall, t.pickPver(rng), wire.BaseEncoding, "BaseEncoding", wire.MainNet, gid)
 						c.count("concurrent_roundtrips", 1)
 					}
 				}()
@@ -328,6 +325,7 @@ func hostile(r *ev.Run, t *tables) {
 			for b := 0; b < cases; b++ {
 				id := fmt.Sprintf("hz/%s/%s/%d", k.cmd, cl.name, b)
 				r.Do(id, func() {
+					defer timing(id)()
 					h.caseID = id
 					h.runCase(k.cmd, cl.name, sc, cl.frames)
 					h.flush()
@@ -349,5 +347,20 @@ func hostile(r *ev.Run, t *tables) {
 		r.Extra(fmt.Sprintf("max_alloc_over_bound_w%02d", r.Worker), map[string]any{
 			"ratio": float64(int(1000*float64(h.maxRatioNum)/float64(h.maxRatioDen))) / 1000, "case": h.maxRatioWhat,
 		})
+	}
+}
+
+// timing: developer aid (C14_TIMING=<file>): per-case CPU cost; not used by any oracle.
+func timing(id string) func() {
+	path := os.Getenv("C14_TIMING")
+	if path == "" {
+		return func() {}
+	}
+	t0 := time.Now()
+	return func() {
+		if f, err := os.OpenFile(path, os.O_APPEND|os.O_CREATE|os.O_WRONLY, 0o644); err == nil {
+			fmt.Fprintf(f, "%8.1f ms %s\n", float64(time.Since(t0).Microseconds())/1000, id)
+			f.Close()
+		}
 	}
 }
